@@ -153,6 +153,24 @@ def ppoGradAll (passAtBound : Bool) (n : Nat) (lo hi vfL entL : K) (r A v R : Na
     + vfL * (sumTo n (fun i => huber' (v i - R i) * dv i) / (n : K))
     - entL * (sumTo n (fun i => dh i) / (n : K))
 
+/-- closed form of the n-step return of step `t` (rewards `r_0 … r_{n-1}`, bootstrap value `V`):
+`R_t = Σ_{j ≥ t} γ^{j-t} r_j + γ^{n-t} V` -/
+def nstepReturn (gamma V : K) (rs : List K) (t : Nat) : K :=
+  ((List.range (rs.length - t)).map (fun j => pw gamma j * rs.getD (t + j) 0)).sum + pw gamma (rs.length - t) * V
+
+/-- reference value of the n-step PPO loss of one inner epoch on `n` samples: ratios `r`, returns `G`, critic values `v`,
+first-epoch critic values `old` (none in the first inner epoch), clip range `c` -/
+def nstepLoss (n : Nat) (lo hi c vfL : K) (r G v : Nat → K) (old : Option (Nat → K)) : K :=
+  -(sumTo n (fun i => minK (r i * (G i - v i)) (clip lo hi (r i) * (G i - v i))) / (n : K))
+    + vfL * (sumTo n (fun i =>
+        match old with
+        | none => (v i - G i) * (v i - G i)
+        | some o =>
+          let vc := clip (-c) c (v i - o i) + o i
+          let a := (v i - G i) * (v i - G i)
+          let b := (vc - G i) * (vc - G i)
+          if a < b then b else a) / (n : K))
+
 end ppo
 
 end Rl4co.Spec.Train
